@@ -153,12 +153,12 @@ func body(s *simrt.Sim, tier string) {
 }
 
 func TestWorker(t *testing.T) {
-	common.Main(t, common.Harness{ID: "C01", NoDelays: true, Body: body,
+	common.Main(t, common.Harness{ID: "C01", NoDelays: true, SeedCrypto: true, Body: body,
 		// unwoven dataflow: a run is non-trivial when simulated I/O decisions (chunk sizes, zero reads, consumer buffers) were drawn
 		NonTrivial: func(res *simrt.Result) bool {
 			n := 0
 			for _, e := range res.Tape {
-				if e.Kind == "chunk" || e.Kind == "consumerbuf" || e.Kind == "zeroread" {
+				if e.Kind == "substream" || e.Kind == "consumerbuf" {
 					n++
 				}
 			}
